@@ -92,6 +92,9 @@ Listed(revs) ==
   IN SelectSeq(bySel \o byMark, LAMBDA x : x.owner \in {"self", "none"})
 
 SortedRevs(revs) == SetToSortSeq(SeqToSet(Listed(revs)), RevLess)
+\* a revision marked for this set's upgrade that someone else still controls (the garbage collector has not orphaned it
+\* yet): listing the history fails until it can be adopted - acting on the incomplete history would mint a new revision
+InTransit(revs) == \E x \in SeqToSet(revs) : x.marker /\ x.owner \notin {"self", "none"}
 
 ---------------------------------------------------------------------------------------
 (* Call results.  A call fails either because an error is injected at its position     *)
@@ -159,6 +162,7 @@ AdoptRevisions(sn, base) ==
       bad     == FirstBad(full)
   IN
   IF ListFault(sn, {1, 2}) THEN [calls |-> <<>>, err |-> TRUE, revs |-> sn.revs]
+  ELSE IF InTransit(sn.revs) THEN [calls |-> <<>>, err |-> TRUE, revs |-> sn.revs]
   ELSE IF Len(orphans) = 0 \/ set.deleting THEN [calls |-> <<>>, err |-> FALSE, revs |-> sn.revs]
   ELSE IF ~IsOK(g[1])               THEN [calls |-> g, err |-> TRUE, revs |-> sn.revs]
   ELSE IF ~sn.fresh.sameUid         THEN [calls |-> g, err |-> TRUE, revs |-> sn.revs]
